@@ -138,6 +138,8 @@ func udpMethods() []methodSpec {
 
 	return []methodSpec{
 		{"Allocate", wire.Allocate, func(x *wire.B) { x.U32(wire.AttrRequestedTransport, 17<<24) }, false},
+		// the transaction id of the Allocate that created the allocation (a "retransmission" must authenticate too)
+		{"Allocate-same-transaction-id", wire.Allocate, func(x *wire.B) { x.U32(wire.AttrRequestedTransport, 17<<24) }, false},
 		{"Refresh", wire.Refresh, func(x *wire.B) { x.U32(wire.AttrLifetime, 1200) }, true},
 		{"Refresh0", wire.Refresh, func(x *wire.B) { x.U32(wire.AttrLifetime, 0) }, true},
 		{"CreatePermission", wire.CreatePermission, func(x *wire.B) { x.XorAddr(wire.AttrXORPeerAddress, b.IP, b.Port) }, true},
@@ -154,8 +156,15 @@ func udpMethods() []methodSpec {
 
 // One world per (state, method); every defect is tried in it as long as the
 // model says nothing changed. state: "none" | "own" | "other-user".
+const allocTx = "c03-alloc-tx"
+
 func runUDP(t *testing.T, r *rep.Report, state string, ms methodSpec, noAuth bool) {
 	var fatal string
+	sameTx := ms.name == "Allocate-same-transaction-id"
+	if sameTx && state != "own" {
+		// no allocation: nothing to replay; another user's *valid* credentials: C03 exempts Allocate from the owner rule
+		return
+	}
 	func() {
 		defer func() {
 			if e := recover(); e != nil {
@@ -175,7 +184,7 @@ func runUDP(t *testing.T, r *rep.Report, state string, ms methodSpec, noAuth boo
 			c1 := w.C["c1"]
 			setup := []vtx.Event{}
 			if state != "none" {
-				setup = append(setup, vtx.Event{K: "alloc", C: "c1", L: -1}, vtx.Event{K: "perm", C: "c1", Peers: []string{"A"}, L: -1},
+				setup = append(setup, vtx.Event{K: "alloc", C: "c1", L: -1, FixTx: allocTx}, vtx.Event{K: "perm", C: "c1", Peers: []string{"A"}, L: -1},
 					vtx.Event{K: "chan", C: "c1", N: 0x4000, Peers: []string{"A"}, L: -1})
 			} else {
 				// obtain a nonce
@@ -198,6 +207,9 @@ func runUDP(t *testing.T, r *rep.Report, state string, ms methodSpec, noAuth boo
 				if state == "other-user" && !d.valid {
 					continue // the other-user column is the defect itself
 				}
+				if sameTx && d.valid && state == "own" {
+					continue // the genuine retransmission (idempotent success) is C19's subject
+				}
 				if d.valid && state != "other-user" && (!ms.needsAlloc || state == "own") && !(ms.method == wire.Allocate && state == "own") {
 					continue // the legitimate request is sent last (it changes state)
 				}
@@ -208,6 +220,10 @@ func runUDP(t *testing.T, r *rep.Report, state string, ms methodSpec, noAuth boo
 				r.Evaluations++
 				gen0 := w.GenCalls
 				tx := w.NextTx()
+				if sameTx {
+					tx = [12]byte{}
+					copy(tx[:], allocTx)
+				}
 				c1.Send(build(ms.method, tx, ms.attrs, user, pass, nonce, d))
 				synctest.Wait()
 				var resp *wire.Msg
@@ -263,7 +279,7 @@ func runUDP(t *testing.T, r *rep.Report, state string, ms methodSpec, noAuth boo
 				}
 			}
 			// finally the valid request with the latest challenge nonce must work where it should
-			if state != "other-user" {
+			if state != "other-user" && !sameTx {
 				tx := w.NextTx()
 				c1.Send(build(ms.method, tx, ms.attrs, c1.User, c1.Pass, nonce, defect{name: "none", mi: "ok", valid: true}))
 				synctest.Wait()
